@@ -476,11 +476,12 @@ def decompress_destripe_cbin(
         1j * np.angle(fft_object(dephas)) * h["sample_shift"][:, np.newaxis]
     )
 
+    # creates a saturation memmap, this is a nsamples vector of booleans: the batches label their saturated
+    # samples in it whether or not the rms is computed
+    file_saturation = output_file.parent.joinpath("_iblqc_ephysSaturation.samples.npy")
+    np.save(file_saturation, np.zeros(sr.ns, dtype=bool))
     # if we want to compute the rms ap across the session as well as the saturation
     if compute_rms:
-        # creates a saturation memmap, this is a nsamples vector of booleans
-        file_saturation = output_file.parent.joinpath("_iblqc_ephysSaturation.samples.npy")
-        np.save(file_saturation, np.zeros(sr.ns, dtype=bool))
         # creates the place holders for the rms
         ap_rms_file = output_file.parent.joinpath("ap_rms.bin")
         ap_time_file = output_file.parent.joinpath("ap_time.bin")
